@@ -140,8 +140,9 @@ def mk_bytes(bs):
 
 
 def seq_of(terms, sort):
+    """sequence of the given element terms; `sort` is the element sort"""
     if not terms:
-        return z3.Empty(sort)
+        return z3.Empty(z3.SeqSort(sort))
     units = [z3.Unit(t) for t in terms]
     return units[0] if len(units) == 1 else z3.Concat(*units)
 
